@@ -56,64 +56,149 @@ theorem cHit_of_link (dirs : List Path) {c : CD} {t : FileType} {id : Name} (h :
     cHit dirs c t id = none := by
   simp [cHit, h]
 
+theorem cHit_of_parent (dirs : List Path) {c : CD} {t : FileType} {id : Name} (h : (parentObj c t id).isSome = true) :
+    cHit dirs c t id = none := by
+  simp [cHit, h]
+
 theorem cHit_some {dirs : List Path} {c : CD} {t : FileType} {id : Name} {d : Bytes} (h : cHit dirs c t id = some d) :
-    hasDir dirs (cpath t id) = false ∧ hasLink c (cpath t id) = false ∧ fget c.files (cpath t id) = some d := by
+    parentObj c t id = none ∧ hasDir dirs (cpath t id) = false ∧ hasLink c (cpath t id) = false ∧
+    fget c.files (cpath t id) = some d := by
   unfold cHit at h
-  by_cases hd : (hasDir dirs (cpath t id) || hasLink c (cpath t id)) = true
+  by_cases hd : ((parentObj c t id).isSome || hasDir dirs (cpath t id) || hasLink c (cpath t id)) = true
   · simp [hd] at h
   · simp only [hd, Bool.false_eq_true, if_false] at h
-    simp only [Bool.or_eq_true, not_or, Bool.not_eq_true] at hd
-    exact ⟨hd.1, hd.2, h⟩
-
-theorem cHit_eq_fget {dirs : List Path} {c : CD} {t : FileType} {id : Name} (hd : hasDir dirs (cpath t id) = false)
-    (hk : hasLink c (cpath t id) = false) : cHit dirs c t id = fget c.files (cpath t id) := by
-  simp [cHit, hd, hk]
+    simp only [Bool.or_eq_true, not_or, Bool.not_eq_true, Option.isSome_eq_false_iff, Option.isNone_iff_eq_none] at hd
+    exact ⟨hd.1.1, hd.1.2, hd.2, h⟩
 
 /-- `Cache::read_full` answers `Ok(Some(d))` exactly when a regular file with bytes `d` is at the entry path. -/
 theorem cReadFull_hit_iff (dirs : List Path) (c : CD) (t : FileType) (id : Name) (d : Bytes) :
     cReadFull dirs c t id = .hit d ↔ cHit dirs c t id = some d := by
   unfold cReadFull cHit
-  by_cases hd : hasDir dirs (cpath t id) = true
-  · simp [hd]
-  · by_cases hk : hasLink c (cpath t id) = true
-    · simp [hd, hk]
-    · simp only [hd, hk, Bool.false_eq_true, if_false, Bool.or_self]
-      cases fget c.files (cpath t id) <;> simp
+  cases hp : parentObj c t id with
+  | some b => cases b <;> simp
+  | none =>
+    by_cases hd : hasDir dirs (cpath t id) = true
+    · simp [hd]
+    · by_cases hk : hasLink c (cpath t id) = true
+      · simp [hd, hk]
+      · simp only [hd, hk, Bool.false_eq_true, if_false, Bool.or_self, Option.isSome_none, reduceCtorEq]
+        cases fget c.files (cpath t id) <;> simp
 
-theorem cReadFull_dir {dirs : List Path} (c : CD) {t : FileType} {id : Name} (h : hasDir dirs (cpath t id) = true) :
-    cReadFull dirs c t id = .error := by
-  simp [cReadFull, h]
+theorem cReadFull_dir {dirs : List Path} (c : CD) {t : FileType} {id : Name} (hp : parentObj c t id = none)
+    (h : hasDir dirs (cpath t id) = true) : cReadFull dirs c t id = .error := by
+  simp [cReadFull, h, hp]
 
-theorem cReadPartial_dir {dirs : List Path} (c : CD) {t : FileType} {id : Name} (h : hasDir dirs (cpath t id) = true)
-    (off : Nat) {len : Nat} (hlen : 0 < len) : cReadPartial dirs c t id off len = .error := by
-  have : len ≠ 0 := by omega
-  simp [cReadPartial, h, this]
-
-/-- a ranged cache read in terms of `cHit` (non-empty range) -/
-theorem cReadPartial_eq (dirs : List Path) (c : CD) (t : FileType) (id : Name) (off : Nat) {len : Nat} (hlen : 0 < len) :
-    cReadPartial dirs c t id off len =
-      match cHit dirs c t id with
-      | some d => if off + len ≤ d.length then .hit ((d.drop off).take len) else .error
-      | none => if hasDir dirs (cpath t id) then .error else .miss := by
+/-- a ranged cache read in terms of `cHit` (non-empty range): served from the entry, or an error past its end -/
+theorem cReadPartial_of_hit {dirs : List Path} {c : CD} {t : FileType} {id : Name} {d : Bytes}
+    (h : cHit dirs c t id = some d) (off : Nat) {len : Nat} (hlen : 0 < len) :
+    cReadPartial dirs c t id off len = if off + len ≤ d.length then .hit ((d.drop off).take len) else .error := by
   have hne : len ≠ 0 := by omega
-  unfold cReadPartial cHit
-  by_cases hd : hasDir dirs (cpath t id) = true
-  · simp [hd, hne]
-  · by_cases hk : hasLink c (cpath t id) = true
-    · simp [hd, hk]
-    · simp only [hd, hk, Bool.false_eq_true, if_false, Bool.or_self]
-      cases fget c.files (cpath t id) <;> simp [hne]
+  obtain ⟨hp, hd, hk, hf⟩ := cHit_some h
+  simp [cReadPartial, hp, hd, hk, hf, hne]
+
+/-- no entry (nothing, a directory, a dangling symlink, a blocked parent): a miss or an error — never a hit -/
+theorem cReadPartial_of_none {dirs : List Path} {c : CD} {t : FileType} {id : Name}
+    (h : cHit dirs c t id = none) (off : Nat) {len : Nat} (hlen : 0 < len) :
+    cReadPartial dirs c t id off len = .miss ∨ cReadPartial dirs c t id off len = .error := by
+  have hne : len ≠ 0 := by omega
+  unfold cReadPartial
+  unfold cHit at h
+  cases hp : parentObj c t id with
+  | some b => cases b <;> simp
+  | none =>
+    by_cases hd : hasDir dirs (cpath t id) = true
+    · simp [hd, hne]
+    · by_cases hk : hasLink c (cpath t id) = true
+      · simp [hd, hk]
+      · simp only [hp, hd, hk, Bool.false_eq_true, if_false, Bool.or_self, Option.isSome_none] at h
+        simp [hd, hk, h]
 
 /-! ### cache writes and removals -/
 
-/-- the cache write of `(t, id)` reaches the entry path: no directory or dangling symlink at the temp path, no directory at
-the entry path -/
+/-- the cache write of `(t, id)` reaches the entry path: the parent directories can be made, no directory or dangling
+symlink at the temp path, no directory at the entry path -/
 def writes (dirs : List Path) (c : CD) (t : FileType) (id : Name) : Bool :=
-  !hasDir dirs (ctmp t id) && !hasLink c (ctmp t id) && !hasDir dirs (cpath t id)
+  (parentObj c t id).isNone && !hasDir dirs (ctmp t id) && !hasLink c (ctmp t id) && !hasDir dirs (cpath t id)
 
-/-- the cache write of `(t, id)` cannot even start: a directory or a dangling symlink at the temp path -/
+/-- the cache write of `(t, id)` fails at the temp file: a directory or a dangling symlink at the temp path -/
 def tmpBlocked (dirs : List Path) (c : CD) (t : FileType) (id : Name) : Bool :=
   hasDir dirs (ctmp t id) || hasLink c (ctmp t id)
+
+theorem short_ne_cpath {q : Path} (hq : q.length ≤ 2) (t : FileType) (id : Name) : q ≠ cpath t id := by
+  intro e; rw [e] at hq; simp [cpath] at hq
+
+theorem short_ne_ctmp {q : Path} (hq : q.length ≤ 2) (t : FileType) (id : Name) : q ≠ ctmp t id := by
+  intro e; rw [e] at hq; simp [ctmp] at hq
+
+/-- cache writes and removals touch entry and temp paths only: what sits where the parent directories belong stays -/
+theorem fget_cWrite_short (dirs : List Path) (c : CD) (t : FileType) (id : Name) (d : Bytes) {q : Path} (hq : q.length ≤ 2) :
+    fget (cWrite dirs c t id d).files q = fget c.files q := by
+  have h1 := short_ne_cpath hq t id
+  have h2 := short_ne_ctmp hq t id
+  unfold cWrite
+  split
+  · rfl
+  · split
+    · rfl
+    · split
+      · rfl
+      · split
+        · exact fget_fput_ne _ d h2
+        · show fget (cWriteFile c.files t id d) q = _
+          unfold cWriteFile
+          rw [fget_fput_ne _ d h1, fget_fdel_ne _ h2, fget_fput_ne _ d h2]
+
+theorem hasLink_cWrite_short (dirs : List Path) (c : CD) (t : FileType) (id : Name) (d : Bytes) {q : Path} (hq : q.length ≤ 2) :
+    hasLink (cWrite dirs c t id d) q = hasLink c q := by
+  have h1 := short_ne_cpath hq t id
+  have h2 := short_ne_ctmp hq t id
+  unfold cWrite
+  split
+  · rfl
+  · split
+    · rfl
+    · split
+      · exact hasLink_unlink_ne c h2
+      · split
+        · rfl
+        · exact hasLink_unlink_ne c h1
+
+theorem parentObj_cWrite (dirs : List Path) (c : CD) (t t' : FileType) (id id' : Name) (d : Bytes) :
+    parentObj (cWrite dirs c t id d) t' id' = parentObj c t' id' := by
+  unfold parentObj
+  rw [fget_cWrite_short dirs c t id d (q := [t'.dirname]) (by simp),
+      fget_cWrite_short dirs c t id d (q := [t'.dirname, id'.take 2]) (by simp),
+      hasLink_cWrite_short dirs c t id d (q := [t'.dirname]) (by simp),
+      hasLink_cWrite_short dirs c t id d (q := [t'.dirname, id'.take 2]) (by simp)]
+
+theorem fget_cRemove_short (dirs : List Path) (c : CD) (t : FileType) (id : Name) {q : Path} (hq : q.length ≤ 2) :
+    fget (cRemove dirs c t id).files q = fget c.files q := by
+  unfold cRemove
+  split
+  · rfl
+  · exact fget_fdel_ne _ (short_ne_cpath hq t id)
+
+theorem hasLink_cRemove_short (dirs : List Path) (c : CD) (t : FileType) (id : Name) {q : Path} (hq : q.length ≤ 2) :
+    hasLink (cRemove dirs c t id) q = hasLink c q := by
+  unfold cRemove
+  split
+  · rfl
+  · exact hasLink_unlink_ne c (short_ne_cpath hq t id)
+
+theorem parentObj_cRemove (dirs : List Path) (c : CD) (t t' : FileType) (id id' : Name) :
+    parentObj (cRemove dirs c t id) t' id' = parentObj c t' id' := by
+  unfold parentObj
+  rw [fget_cRemove_short dirs c t id (q := [t'.dirname]) (by simp),
+      fget_cRemove_short dirs c t id (q := [t'.dirname, id'.take 2]) (by simp),
+      hasLink_cRemove_short dirs c t id (q := [t'.dirname]) (by simp),
+      hasLink_cRemove_short dirs c t id (q := [t'.dirname, id'.take 2]) (by simp)]
+
+/-- `cHit` with the parent check taken out (it is the same before and after a cache write / removal) -/
+theorem cHit_unfold (dirs : List Path) (c : CD) (t : FileType) (id : Name) :
+    cHit dirs c t id = if (parentObj c t id).isSome then none
+      else if hasDir dirs (cpath t id) || hasLink c (cpath t id) then none else fget c.files (cpath t id) := by
+  unfold cHit
+  cases (parentObj c t id).isSome <;> simp
 
 /-- After `Cache::write_bytes` every entry is as before, except the written one, which holds the new bytes — if the
 write got through (otherwise it is as before too). -/
@@ -122,52 +207,81 @@ theorem cHit_cWrite {L : Nat} (dirs : List Path) (c : CD) {t t' : FileType} {id 
     cHit dirs (cWrite dirs c t id d) t' id' =
       if (t' = t ∧ id' = id) ∧ writes dirs c t id = true then some d else cHit dirs c t' id' := by
   have hnt : cpath t' id' ≠ ctmp t id := cpath_ne_ctmp (by rw [hl, hl'])
-  unfold cWrite
-  by_cases h1 : hasDir dirs (ctmp t id) = true
-  · simp [h1, writes]
-  · by_cases h1' : hasLink c (ctmp t id) = true
-    · simp only [h1, h1', Bool.false_eq_true, if_false, if_true, writes, Bool.not_true, Bool.and_false, Bool.false_and,
-        and_false]
-      unfold cHit
-      rw [hasLink_unlink_ne c hnt]; rfl
-    · by_cases h2 : hasDir dirs (cpath t id) = true
-      · simp only [h1, h1', h2, Bool.false_eq_true, if_false, if_true, writes, Bool.not_true, Bool.and_false, and_false]
-        unfold cHit hasLink
-        simp only
-        rw [fget_fput_ne _ d hnt]
-      · simp only [h1, h1', h2, Bool.false_eq_true, if_false, writes, Bool.not_false, Bool.and_self, and_true]
-        by_cases e : t' = t ∧ id' = id
-        · obtain ⟨e1, e2⟩ := e; subst e1; subst e2
-          have hk : cpath t' id' ∉ (unlink c (cpath t' id')).links := by
-            intro hm
-            have := (hasLink_iff _ _).2 hm
-            rw [hasLink_unlink_same] at this; cases this
-          simp [cHit, h2, hasLink, hk, cWriteFile, fget_fput_same]
-        · have hne : cpath t' id' ≠ cpath t id := fun h => e (cpath_inj h)
-          have hk := hasLink_unlink_ne c hne
-          simp only [hasLink] at hk
-          simp only [e, if_false]
-          unfold cHit cWriteFile hasLink
-          simp only
-          rw [hk, fget_fput_ne _ d hne, fget_fdel_ne _ hnt, fget_fput_ne _ d hnt]
+  rw [cHit_unfold, cHit_unfold dirs c, parentObj_cWrite]
+  by_cases hp' : (parentObj c t' id').isSome = true
+  · -- nothing can be below a non-directory; if it is the written file itself, the write does not get through
+    have : ¬((t' = t ∧ id' = id) ∧ writes dirs c t id = true) := by
+      rintro ⟨⟨e1, e2⟩, hw⟩
+      subst e1; subst e2
+      simp [writes] at hw
+      rw [hw.1.1.1] at hp'; cases hp'
+    simp [hp', this]
+  · simp only [hp', Bool.false_eq_true, if_false]
+    unfold cWrite
+    by_cases h0 : (parentObj c t id).isSome = true
+    · have hw : writes dirs c t id = false := by
+        cases h : parentObj c t id with
+        | none => rw [h] at h0; simp at h0
+        | some b => simp [writes, h]
+      simp [h0, hw]
+    · have h0n : (parentObj c t id).isNone = true := by
+        cases h : parentObj c t id with
+        | none => rfl
+        | some b => rw [h] at h0; simp at h0
+      by_cases h1 : hasDir dirs (ctmp t id) = true
+      · simp [h0, h1, writes]
+      · by_cases h1' : hasLink c (ctmp t id) = true
+        · simp only [h0, h1, h1', Bool.false_eq_true, if_false, if_true, writes, Bool.not_true, Bool.and_false,
+            Bool.false_and, and_false]
+          rw [hasLink_unlink_ne c hnt]
+          rfl
+        · by_cases h2 : hasDir dirs (cpath t id) = true
+          · simp only [h0, h1, h1', h2, Bool.false_eq_true, if_false, if_true, writes, Bool.not_true, Bool.and_false,
+              and_false]
+            unfold hasLink
+            simp only
+            rw [fget_fput_ne _ d hnt]
+          · simp only [h0, h0n, h1, h1', h2, Bool.false_eq_true, if_false, writes, Bool.not_false, Bool.and_self, and_true]
+            by_cases e : t' = t ∧ id' = id
+            · obtain ⟨e1, e2⟩ := e; subst e1; subst e2
+              have hk : cpath t' id' ∉ (unlink c (cpath t' id')).links := by
+                intro hm
+                have := (hasLink_iff _ _).2 hm
+                rw [hasLink_unlink_same] at this; cases this
+              simp [h2, hasLink, hk, cWriteFile, fget_fput_same]
+            · have hne : cpath t' id' ≠ cpath t id := fun h => e (cpath_inj h)
+              have hk := hasLink_unlink_ne c hne
+              simp only [hasLink] at hk
+              simp only [e, if_false]
+              unfold cWriteFile hasLink
+              simp only
+              rw [hk, fget_fput_ne _ d hne, fget_fdel_ne _ hnt, fget_fput_ne _ d hnt]
 
 theorem cHit_cRemove (dirs : List Path) (c : CD) (t t' : FileType) (id id' : Name) :
     cHit dirs (cRemove dirs c t id) t' id' = if t' = t ∧ id' = id then none else cHit dirs c t' id' := by
-  unfold cRemove
-  by_cases e : t' = t ∧ id' = id
-  · obtain ⟨e1, e2⟩ := e; subst e1; subst e2
-    by_cases h : hasDir dirs (cpath t' id') = true
-    · simp [h, cHit]
-    · simp [h, cHit, fget_fdel_same]
-  · have hne : cpath t' id' ≠ cpath t id := fun h => e (cpath_inj h)
-    by_cases h : hasDir dirs (cpath t id) = true
-    · simp [h, e]
-    · have hk := hasLink_unlink_ne c hne
-      simp only [hasLink] at hk
-      simp only [h, Bool.false_eq_true, if_false, e]
-      unfold cHit hasLink
-      simp only
-      rw [hk, fget_fdel_ne _ hne]
+  rw [cHit_unfold, cHit_unfold dirs c, parentObj_cRemove]
+  by_cases hp' : (parentObj c t' id').isSome = true
+  · simp [hp']
+  · simp only [hp', Bool.false_eq_true, if_false]
+    unfold cRemove
+    by_cases e : t' = t ∧ id' = id
+    · obtain ⟨e1, e2⟩ := e; subst e1; subst e2
+      by_cases h : hasDir dirs (cpath t' id') = true
+      · simp [h]
+      · have hk : cpath t' id' ∉ (unlink c (cpath t' id')).links := by
+          intro hm
+          have := (hasLink_iff _ _).2 hm
+          rw [hasLink_unlink_same] at this; cases this
+        simp [hp', h, hasLink, hk, fget_fdel_same]
+    · have hne : cpath t' id' ≠ cpath t id := fun h => e (cpath_inj h)
+      by_cases h : ((parentObj c t id).isSome || hasDir dirs (cpath t id)) = true
+      · simp [h, e]
+      · have hk := hasLink_unlink_ne c hne
+        simp only [hasLink] at hk
+        simp only [h, Bool.false_eq_true, if_false, e]
+        unfold hasLink
+        simp only
+        rw [hk, fget_fdel_ne _ hne]
 
 /-- `Cache::remove` only deletes. -/
 theorem cHit_cRemove_some {dirs : List Path} {c : CD} {t t' : FileType} {id id' : Name} {d : Bytes}
@@ -209,10 +323,12 @@ theorem cWrite_links {dirs : List Path} {c : CD} {t : FileType} {id : Name} {d :
   split at h
   · exact h
   · split at h
-    · exact hasLink_unlink_of h
+    · exact h
     · split at h
-      · exact h
-      · exact hasLink_unlink_of (c := c) (p := cpath t id) h
+      · exact hasLink_unlink_of h
+      · split at h
+        · exact h
+        · exact hasLink_unlink_of (c := c) (p := cpath t id) h
 
 theorem cRemove_links {dirs : List Path} {c : CD} {t : FileType} {id : Name} {p : Path}
     (h : hasLink (cRemove dirs c t id) p = true) : hasLink c p = true := by
@@ -230,11 +346,11 @@ theorem removeAll_links {dirs : List Path} {c : CD} {t : FileType} (es : List (N
 /-! ### the cache listing -/
 
 theorem cEntry_cpath {L : Nat} {dirs : List Path} {c : CD} (t : FileType) {id : Name} (hn : isCacheName L id = true) (d : Bytes)
-    (hd : hasDir dirs (cpath t id) = false) (hk : hasLink c (cpath t id) = false) :
+    (hp : parentObj c t id = none) (hd : hasDir dirs (cpath t id) = false) (hk : hasLink c (cpath t id) = false) :
     cEntry L dirs c t (cpath t id, d) = some (id, d.length) := by
   have hd' : hasDir dirs [t.dirname, List.take 2 id, id] = false := hd
   have hk' : hasLink c [t.dirname, List.take 2 id, id] = false := hk
-  simp [cEntry, cpath, hn, hd', hk']
+  simp [cEntry, cpath, hn, hd', hk', hp]
 
 /-- a directory is never a cache entry (`is_file`) -/
 theorem cEntry_dir {L : Nat} {dirs : List Path} {c : CD} (t : FileType) {p : Path} (d : Bytes) (hd : hasDir dirs p = true) :
@@ -246,10 +362,10 @@ theorem cEntry_dir {L : Nat} {dirs : List Path} {c : CD} (t : FileType) {p : Pat
 
 theorem mem_cList {L : Nat} {dirs : List Path} {c : CD} {t : FileType} {id : Name} {d : Bytes}
     (hn : isCacheName L id = true) (h : cHit dirs c t id = some d) : (id, d.length) ∈ cList L dirs c t := by
-  obtain ⟨hd, hk, hf⟩ := cHit_some h
+  obtain ⟨hp, hd, hk, hf⟩ := cHit_some h
   unfold cList
   rw [List.mem_filterMap]
-  exact ⟨(cpath t id, d), mem_of_fget hf, cEntry_cpath t hn d hd hk⟩
+  exact ⟨(cpath t id, d), mem_of_fget hf, cEntry_cpath t hn d hp hd hk⟩
 
 /-- What survives a clean-up has the size the listing reports for that id. -/
 theorem removeNotInList_survivor {L : Nat} {dirs : List Path} {c : CD} {t : FileType} {list : List (Name × Nat)} {id : Name}
